@@ -257,6 +257,39 @@ func runC14(c *runCtx) {
 		inputs = append(inputs, "SELECT a FROM t WHERE id IN (SELECT s FROM first_arm)"+strings.Repeat(" UNION SELECT b FROM u", n/4+1))
 		inputs = append(inputs, "SELECT f("+strings.Repeat("g(", 80)+"(SELECT 1 FROM innermost)"+strings.Repeat(")", 80)+") FROM t")
 	}
+	// optional parts of one node in every combination (a node that carries several of them at once must yield them all):
+	// the modifiers of a function call, the clauses of each statement kind
+	{
+		combos := func(head string, parts []string, tail string) {
+			for mask := 0; mask < 1<<len(parts); mask++ {
+				sql := head
+				for i, p := range parts {
+					if mask&(1<<i) != 0 {
+						sql += p
+					}
+				}
+				inputs = append(inputs, sql+tail)
+			}
+		}
+		for _, distinct := range []string{"", "DISTINCT "} {
+			for _, inner := range []string{"", " ORDER BY (SELECT 1 FROM in_call_order)", " ORDER BY n DESC, m"} {
+				combos("SELECT STRING_AGG("+distinct+"name, ','"+inner+")", []string{" WITHIN GROUP (ORDER BY (SELECT 2 FROM within_group_order))", " FILTER (WHERE x > (SELECT 3 FROM filter_cond))",
+					" OVER (PARTITION BY (SELECT 4 FROM partition_key) ORDER BY (SELECT 5 FROM window_order) ROWS BETWEEN 1 PRECEDING AND CURRENT ROW)"}, " FROM t")
+			}
+		}
+		combos("SELECT DISTINCT a", []string{" FROM t JOIN u ON t.i = u.i", " WHERE b IN (SELECT 1 FROM w1)", " GROUP BY a, (SELECT 2 FROM w2)", " HAVING MAX(c) > (SELECT 3 FROM w3)", " WINDOW w AS (PARTITION BY (SELECT 4 FROM w4))",
+			" ORDER BY (SELECT 5 FROM w5)", " LIMIT 3", " OFFSET 2", " FOR UPDATE"}, "")
+		combos("INSERT INTO t (a, b)", []string{" VALUES (1, (SELECT 1 FROM v1))", " ON CONFLICT (a) DO UPDATE SET b = (SELECT 2 FROM v2) WHERE t.a > (SELECT 3 FROM v3)", " RETURNING a, (SELECT 4 FROM v4)"}, "")
+		combos("INSERT INTO t (a, b) SELECT x, y FROM src", []string{" ON CONFLICT DO NOTHING", " RETURNING (SELECT 1 FROM r1)"}, "")
+		combos("UPDATE t SET a = (SELECT 1 FROM s1)", []string{" FROM u", " WHERE b = (SELECT 2 FROM s2)", " RETURNING (SELECT 3 FROM s3)"}, "")
+		combos("DELETE FROM t", []string{" USING u", " WHERE b = (SELECT 1 FROM d1)", " RETURNING (SELECT 2 FROM d2)"}, "")
+		combos("MERGE INTO t USING u ON t.i = (SELECT 1 FROM m1)", []string{" WHEN MATCHED AND u.x > (SELECT 2 FROM m2) THEN UPDATE SET a = (SELECT 3 FROM m3)", " WHEN MATCHED THEN DELETE",
+			" WHEN NOT MATCHED THEN INSERT (a) VALUES ((SELECT 4 FROM m4))"}, "")
+		combos("WITH c AS (SELECT 1 FROM c1), d (x) AS (SELECT 2 FROM c2) SELECT a FROM c", []string{" UNION ALL SELECT b FROM d", " ORDER BY (SELECT 3 FROM c3)", " LIMIT 1"}, "")
+		combos("SELECT CASE (SELECT 1 FROM k1) WHEN (SELECT 2 FROM k2) THEN (SELECT 3 FROM k3)", []string{" WHEN 5 THEN (SELECT 4 FROM k4)", " ELSE (SELECT 5 FROM k5)"}, " END FROM t")
+		combos("SELECT a FROM t WHERE b", []string{" NOT"}, " BETWEEN (SELECT 1 FROM b1) AND (SELECT 2 FROM b2)")
+		combos("CREATE TABLE t (a INT", []string{" DEFAULT (1 + 2)", " NOT NULL", " CHECK (a > (0 + 1))", " REFERENCES u (i)"}, ", b TEXT)")
+	}
 	fams := make([]string, 0, len(c20Families))
 	for f := range c20Families {
 		fams = append(fams, f)
